@@ -23,6 +23,9 @@ var (
 	EdgeKinds = []string{"R", "S", "T"}
 	names     = []string{"a", "b", "ab", "abc", "b1", "c", "a1", "zz"}
 	tagVals   = []string{"x", "y", "z"}
+	// pathVals: strings with the characters a LIKE pattern gives a meaning to. Only ever compared by =, STARTS WITH,
+	// ENDS WITH and CONTAINS (never ordered: collation).
+	pathVals = []string{`a\b`, "a_b", "a%b", "axb", "ab", `a\`, "%", "_x", `c\d\e`}
 )
 
 // Graph draws a small property graph: ids with gaps, kind-less and multi-kind nodes, self loops,
@@ -79,6 +82,9 @@ func props(t *rapid.T) map[string]any {
 		"value": int64(rapid.IntRange(0, 4).Draw(t, "pvalue")),
 		"score": float64(rapid.IntRange(0, 6).Draw(t, "pscore")) / 2,
 		"flag":  rapid.Bool().Draw(t, "pflag"),
+	}
+	if rapid.IntRange(0, 3).Draw(t, "haspath") != 0 {
+		p["path"] = rapid.SampledFrom(pathVals).Draw(t, "ppath")
 	}
 	nt := rapid.IntRange(0, 2).Draw(t, "ntags")
 	tags := make([]any, 0, nt)
@@ -389,17 +395,23 @@ func (g *gen) relPattern(pathCtx bool) string {
 			inner += "*"
 			g.feat("var-length-unbounded")
 		case 4:
-			if lo == 0 {
+			if lo == 0 && !g.chance("zero-range", 1, 3) {
 				lo = 1
 			}
 			inner += fmt.Sprintf("*%d", lo)
 			g.feat("var-length-exact")
-		default:
 			if lo == 0 {
+				g.feat("var-length-zero")
+			}
+		default:
+			if lo == 0 && !g.chance("zero-range2", 1, 3) {
 				lo = 1
 			}
 			inner += fmt.Sprintf("*%d..%d", lo, lo)
 			g.feat("var-length-exact")
+			if lo == 0 {
+				g.feat("var-length-zero")
+			}
 		}
 	} else if g.chance("rprops", 1, 14) {
 		inner += " {" + g.inlineProp() + "}"
@@ -705,6 +717,10 @@ func (g *gen) boolAtom(depth int) string {
 	case k <= 4:
 		g.feat("cmp-string")
 		return g.strExpr(depth) + " " + rapid.SampledFrom([]string{"=", "<>", "=", "<", ">"}).Draw(g.t, "scmp") + " " + g.strExpr(depth)
+	case k == 5 && ok && g.chance("pathpred", 1, 3):
+		// a string predicate whose literal holds %, _ or a backslash
+		g.feat("string-predicate-special-characters")
+		return e.Name + ".path " + rapid.SampledFrom([]string{"starts with", "ends with", "contains", "="}).Draw(g.t, "pop") + " " + g.pathLit()
 	case k == 5:
 		g.feat("string-predicate")
 		op := rapid.SampledFrom([]string{"starts with", "ends with", "contains"}).Draw(g.t, "sop")
@@ -769,6 +785,16 @@ func (g *gen) boolAtom(depth int) string {
 			if len(ns) > 1 && g.chance("ppbound", 1, 4) {
 				other = "(" + ns[g.pick("ppn2", len(ns))].Name + ")"
 				g.feat("pattern-predicate-bound-both")
+				if g.chance("ppboundconstraint", 1, 3) {
+					// the bound endpoint restated with a constraint of its own: part of the predicate, not of the MATCH
+					b := ns[g.pick("ppn3", len(ns))].Name
+					if g.chance("ppboundkind", 1, 2) {
+						other = "(" + b + ":" + rapid.SampledFrom(NodeKinds).Draw(g.t, "ppbk") + ")"
+					} else {
+						other = "(" + b + " {" + g.inlineProp() + "})"
+					}
+					g.feat("pattern-predicate-constrains-bound-variable")
+				}
 			}
 			switch g.pick("ppdir", 3) {
 			case 0:
@@ -1145,7 +1171,7 @@ func (g *gen) eks() string {
 	return g.ek()
 }
 func (g *gen) rng() string {
-	return rapid.SampledFrom([]string{"*1..", "*1..2", "*0..", "*..2", "*", "*2..2", "*1..1", "*2", "*1..3", "*0..1"}).Draw(g.t, "trng")
+	return rapid.SampledFrom([]string{"*1..", "*1..2", "*0..", "*..2", "*", "*2..2", "*1..1", "*2", "*1..3", "*0..1", "*0..0", "*0"}).Draw(g.t, "trng")
 }
 func (g *gen) anchor(v string) string {
 	switch g.pick("tanchor", 5) {
@@ -1161,6 +1187,28 @@ func (g *gen) anchor(v string) string {
 		return v + ".value > " + fmt.Sprintf("%d", g.pick("tav2", 4))
 	}
 }
+
+// pathLit: a Cypher string literal for a piece of a path value (backslashes doubled for the Cypher lexer).
+func (g *gen) pathLit() string {
+	v := rapid.SampledFrom([]string{`a\\`, `\\b`, `a\\b`, "a_", "_b", "a_b", "a%", "%b", "%", "_", "a", "b", `\\`, `\\d\\`, "x"}).Draw(g.t, "pathlit")
+	return "'" + v + "'"
+}
+
+// terminalVar / whereTerminal: helpers of the aggregate-traversal-count template (the terminal is (c…) or the source (u)).
+func terminalVar(terminal string) string {
+	if terminal == "(u)" {
+		return "u"
+	}
+	return "c"
+}
+
+func whereTerminal(terminal string, where func(v, label string) string) string {
+	if terminal == "(u)" {
+		return ""
+	}
+	return where("c", "t5w2")
+}
+
 func (g *gen) lim() string {
 	if g.chance("tlim", 2, 3) {
 		return fmt.Sprintf(" limit %d", 1+g.pick("tlimn", 4))
@@ -1176,7 +1224,12 @@ func (g *gen) loweringTemplate() string {
 	g.feat(fmt.Sprintf("template-%d", k))
 	switch k {
 	case 0: // count fast paths
-		switch g.pick("t0", 6) {
+		switch g.pick("t0", 8) {
+		case 6:
+			// no direction written: every relationship is seen from both ends
+			return "match ()-[r:" + g.eks() + "]-() return " + rapid.SampledFrom([]string{"count(r)", "count(*)"}).Draw(g.t, "t0ur")
+		case 7:
+			return "match (a" + g.optKind("t0k") + ")-[r]-(b) return " + rapid.SampledFrom([]string{"count(r)", "count(*)", "count(b)"}).Draw(g.t, "t0ur2")
 		case 0:
 			return "match (n" + g.optKind("t0k") + ") return count(n)"
 		case 1:
@@ -1231,8 +1284,16 @@ func (g *gen) loweringTemplate() string {
 			}
 		}
 		distinct := rapid.SampledFrom([]string{"distinct ", "distinct ", ""}).Draw(g.t, "t5d")
-		ret := rapid.SampledFrom([]string{"u order by cnt desc", "u order by cnt desc", "u, cnt order by cnt desc", "u.name, cnt order by cnt desc"}).Draw(g.t, "t5ret")
-		return "match (u" + g.optKind("t5k") + ")" + where("u", "t5w1") + " match (u)-[:" + g.eks() + rapid.SampledFrom([]string{"*1..", "*0..", "*0..", "*1..2", "*0..2", "*", "*..2", "*1..3", "*0..1", "*2..2"}).Draw(g.t, "t5rng") + "]->(c" + g.optKind("t5k2") + ")" + where("c", "t5w2") + " with " + distinct + "u, count(c) as cnt return " + ret + g.lim()
+		ret := rapid.SampledFrom([]string{"u order by cnt desc", "u order by cnt desc", "u, cnt order by cnt desc", "u.name, cnt order by cnt desc", "u, cnt order by cnt", "u, cnt order by cnt asc", "u order by cnt asc"}).Draw(g.t, "t5ret")
+		second := "(u)"
+		if g.chance("t5restate", 1, 5) {
+			second = "(u:" + rapid.SampledFrom(NodeKinds).Draw(g.t, "t5rk") + ")" // kinds restated (or added) on the source
+		}
+		terminal := "(c" + g.optKind("t5k2") + ")"
+		if g.chance("t5self", 1, 8) {
+			terminal = "(u)" // the traversal must return to its source
+		}
+		return "match (u" + g.optKind("t5k") + ")" + where("u", "t5w1") + " match " + second + "-[:" + g.eks() + rapid.SampledFrom([]string{"*1..", "*0..", "*0..", "*1..2", "*0..2", "*", "*..2", "*1..3", "*0..1", "*2..2"}).Draw(g.t, "t5rng") + "]->" + terminal + whereTerminal(terminal, where) + " with " + distinct + "u, count(" + terminalVar(terminal) + ") as cnt return " + ret + g.lim()
 	case 6: // quantifier over relationships(p)
 		q := rapid.SampledFrom([]string{"all", "any", "none"}).Draw(g.t, "t6q")
 		pred := rapid.SampledFrom([]string{"r.value > 0", "r.flag = true", "r.name = 'a'", "type(r) = 'R'", "r.value <= 2"}).Draw(g.t, "t6p")
